@@ -366,6 +366,30 @@ pub fn main(opts: &Opts) {
         }
     } else {
         scheds.extend(gen_drop_windows());
+        // long histories: n completed request/reply cycles on one session, then a request that is
+        // abandoned unpolled while its reply is still on the way, then a new request (whatever
+        // bookkeeping the session keeps per request has grown to n entries by then)
+        for n in [64usize, 255, 256, 257, 300] {
+            for variant in 0..2 {
+                let mut a: Vec<String> = vec![];
+                for i in 0..n {
+                    a.push("s1".into());
+                    a.push(format!("d{}/{}/1", i + 1, 1000 + i));
+                    a.push(format!("p{i}"));
+                }
+                a.push("s1".into()); // id n+1, future n: abandoned
+                if variant == 1 {
+                    a.push(format!("p{n}")); // … while it is the reader
+                }
+                a.push(format!("x{n}"));
+                a.push("s1".into()); // id n+2, future n+1
+                a.push(format!("d{}/7001/1", n + 1));
+                a.push(format!("d{}/7002/1", n + 2));
+                // the specification judges liveness only after (deliveries + futures) fair rounds
+                a.push(format!("r{}", 2 * n + 8));
+                scheds.push(a);
+            }
+        }
         // C07: the peer goes away with 0..3 requests outstanding, futures at every suspension point
         for n in 0..=3usize {
             for polled in 0..=n {
